@@ -670,6 +670,9 @@ func (fr *Frame) collectNames() {
 				}
 			case *ssa.DebugRef:
 				if id, ok := x.Expr.(*ast.Ident); ok {
+					if v, isVar := x.Object().(*types.Var); isVar && v.IsField() {
+						continue // the selector identifier of x.f: a field, not a variable of that name
+					}
 					fr.names[id.Name] = append(fr.names[id.Name], nameDef{val: x.X, isAddr: x.IsAddr, block: b, idx: i})
 				}
 			case *ssa.Alloc:
